@@ -101,7 +101,8 @@ func c16Judge(c *hx.Ctx, blob []byte, signer *x509.Certificate, label string, pr
 		name string
 		c    *x509.Certificate
 		want bool
-	}{{"signer's certificate", signer, true}, {"another certificate", keys.C(2), false}, {"same issuer+serial, other key", samePlate(signer), false}}
+	}{{"signer's certificate", signer, true}, {"another certificate", keys.C(2), false}, {"same issuer+serial, other key", samePlate(signer), false},
+		{"same issuer+serial, 4096-bit key", samePlateK(signer, 4), false}, {"same issuer+serial, 2047-bit key", samePlateK(signer, 6), false}}
 	for _, ct := range certs {
 		var ok bool
 		if pn := hx.Try(func() { ok, err = p.Verify(ct.c) }); pn != nil {
@@ -118,7 +119,7 @@ func c16Judge(c *hx.Ctx, blob []byte, signer *x509.Certificate, label string, pr
 		}
 	}
 	// the same parsed object verified again in other orders: verdicts must not depend on history
-	for _, seq := range [][]int{{0, 2, 1, 0, 2}, {2, 0, 2}, {1, 2, 0, 2}} {
+	for _, seq := range [][]int{{0, 2, 1, 0, 2}, {2, 0, 2}, {1, 2, 0, 2}, {3, 0, 4, 0}, {4, 3, 0}} {
 		p2, e2 := pkcs7.ParsePKCS7(blob)
 		if e2 != nil {
 			break
